@@ -7,7 +7,7 @@ READY = True
 META = {
     "technique": "Lean 4 proof (slice model = CPython PySlice_AdjustIndices for all lists/bounds/steps) + exhaustive correspondence on the quantifier's box",
     "category": "proof",
-    "text": "Kernel-checked theorems: the Lean model of ops::slice (with every checked arithmetic operation modelled as a possible panic) returns exactly CPython's selection for every list shorter than 2^63 and every start/stop/step in i64, a zero step is the only error, no panic; subscripts likewise. The model is tied to /repo by running model, CPython-transcription and the real engine on the whole box of the property's quantifier (exhaustive), plus CPython itself as an independent witness for the spec.",
+    "text": "Kernel-checked theorems: the Lean model of ops::slice (with every checked arithmetic operation modelled as a possible panic) returns exactly CPython's selection for every list shorter than 2^63 and every start/stop/step in i64, a zero step is the only error, no panic; subscripts likewise. Value level (MJ.Sub): for strings in all three representations (UTF-8 bytes; the Chars cursor provably stands on character boundaries and yields the scalar values), bytes, tuples, sequences, sized/unsized/one-shot iterables and slice parts / subscripts that are Python integers of any representation and size (bool, i64, u64, i128, u128; beyond i64 clamped by slice_bound), ops::slice / get_item_opt return Python's selection of the same type; slice is total (error iff a part does not convert, in start/stop/step order, or the step is zero, or the value has no sliceable representation), never panics; integral floats act as integers, everything else is the documented conversion error / undefined; VM arms GetItem/GetAttr/Slice under the four undefined modes. Every dispatch/arm/message table the model interprets is regenerated from /repo. The model is tied to /repo by running model, CPython-transcription and the real engine on the whole box of the property's quantifier (exhaustive), the value-kind x key-kind product through 12 entry points and 4 undefined modes, long random sequences, and metamorphic relations (reverse/first/last/length/for-loop/slices of slices/literal vs run-time), plus CPython itself as an independent witness for the spec.",
     "design_ref": "DESIGN.md §3 C09",
     "level_note": "Trusted: Lean kernel; hand transcription of ops.rs slice/slice_bound/get_offset_and_len/range_step_backwards, value/mod.rs get_item_opt(+index)/get_item/get_item_by_index/get_attr and the VM arms GetItem/GetAttr/Slice into MJ/Model/{Slice,Subscript}.lean; every dispatch table, conversion arm list, error kind/message, length function and the handle_undefined table the model interprets is regenerated from /repo (lib/tables/c09.py) with shape checks. Validated exhaustively on the box (10 kinds x len 0..6 x 23 starts x 23 stops x 13 steps) and on the value-kind x key-kind product through 12 entry points x 4 undefined modes; long random sequences (len <= 2000, bounds near +-len, +-2^31, +-2^63, +-2^64, +-2^127) against the model and CPython.",
 }
@@ -310,7 +310,8 @@ def glue_case(r, f, case, impl, mline):
         if f[3] in ("U", "Z"):
             return
         r.hist["oracle"]["python"] += 1
-        got = impl.replace("iterS:", "iter:").replace("iterU:", "iter:")
+        # a string is a string: whether a slice of a safe string stays safe is not Python's business
+        got = impl.replace("iterS:", "iter:").replace("iterU:", "iter:").replace("safestr:", "str:")
         if got != want:
             r.oracle_failure(case, f"engine returned {impl}, Python selects {want}", "gs:" + _kindtag(f[3]) + ":" + f[2])
     elif st == "gi":
